@@ -580,3 +580,16 @@ impl Widget<Event> for Selection {
         ret
     }
 }
+
+#[cfg(feature = "verif")]
+impl Selection {
+    /// (item_idx, text) of every listed item, in list order
+    pub fn verif_items(&self) -> Vec<(u32, String)> {
+        self.items.iter().map(|m| (m.item_idx, m.item.text().to_string())).collect()
+    }
+
+    /// keys (run, item_idx) of the selected items, ascending
+    pub fn verif_selected_keys(&self) -> Vec<(u32, u32)> {
+        self.selected.keys().cloned().collect()
+    }
+}
